@@ -29,14 +29,18 @@ PATS = ['a', 'b', '^a', 'a$', 'a|b', '.', '', 'x', 'a.c', '^a|b', 'c|^b',
         '^(a|b)$', 'b$|^c', '[ab]c',
         # patterns that are only right when compiled on their own: inline
         # flags, numbered and named groups with back-references
-        '(?i)B', r'(b)\1', '(?P<g>a)(?P=g)', '(?s)a.b']
+        '(?i)B', r'(b)\1', '(?P<g>a)(?P=g)', '(?s)a.b',
+        # a '!' that belongs to the regex: '!!b' negates the regex '!b'
+        '!b', '!']
 NAMES = ['a', 'b', 'ab', 'ba', 'abc', 'a.c', 'xa', 'c', 'A', 'a\nb', 'cb',
-         'xb', 'bc', 'bb', 'aa', 'Bc']
+         'xb', 'bc', 'bb', 'aa', 'Bc', 'a!b', '!']
 
 T_PATS = ['q1', 'q1 ', '^test_q1 ', 'q0|q10', '^test_q0|q2', 'T_q2', 'nomatch',
           r'\.test_q1$|q0 ', '', '(?i)TEST_Q2 ', r'(q1) .*\1\)',
           # patterns that look at the tail of the id: class, method, ')'
-          r'T_q1\.test_q1\)$', r'\(vtw\.tests\.T_q2\)', r'T_q10\)', r'\.test_q\d+\)$']
+          r'T_q1\.test_q1\)$', r'\(vtw\.tests\.T_q2\)', r'T_q10\)', r'\.test_q\d+\)$',
+          # "everything", and a '!' inside the regex
+          '.', '!q1']
 L_PATS = ['A', 'A$', 'AB', r'tests\.A$|B$', '^vtw', 'B$', 'nomatch', 'UnitTests',
           '^zope|AB$',
           # regex syntax that contains a comma
